@@ -111,6 +111,31 @@ Theorem cancel_sends_mode_and_returns_ctx_err : forall U s o (expired : bool) s'
 Proof. exact cancel_sends_mode_proof. Qed.
 Print Assumptions cancel_sends_mode_and_returns_ctx_err.
 
+(* "the configured mode" is the LAST accepted SetCallCancelMode: "" selects
+   killnowait, a valid mode itself, anything else is refused and changes
+   nothing -- and no other step touches the configuration. *)
+Theorem configured_mode_is_last_accepted_setting : forall U s r,
+  exists s' ok, step U s (SetMode r) = Ok s' [OSetMode ok] /\
+    cfg_mode (s_cfg s') = match r with MRDefault => MKillNoWait | MRSet m => m | MRInvalid => cfg_mode (s_cfg s) end /\
+    ok = match r with MRInvalid => false | _ => true end /\
+    s_awaiting s' = s_awaiting s.
+Proof. exact set_mode_proof. Qed.
+Print Assumptions configured_mode_is_last_accepted_setting.
+
+Theorem mode_only_changed_by_setmode : forall U s l s' outs,
+  step U s l = Ok s' outs -> (forall r, l <> SetMode r) -> s_cfg s' = s_cfg s.
+Proof. exact mode_only_changed_by_setmode_proof. Qed.
+Print Assumptions mode_only_changed_by_setmode.
+
+Example set_mode_nonvacuous :
+  let x := exec checked cfg0
+     [SetMode (MRSet MKill); SetMode MRInvalid; SetMode (MRSet MSkip); SetMode MRDefault;
+      ApiStart 1 (OpCall 7 false None) 1; CtxCancel 1] in
+  filter (fun e => match e with EOut (OSend (CCancel _ _)) | EOut (OSetMode _) => true | _ => false end) (x_events x)
+  = [EOut (OSetMode true); EOut (OSetMode false); EOut (OSetMode true); EOut (OSetMode true);
+     EOut (OSend (CCancel 1 MKillNoWait))].
+Proof. vm_compute. reflexivity. Qed.
+
 (* From then on a router message makes it return only the context's error,
    and only on the ERROR (anything else is discarded) ... *)
 Theorem cancelled_call_returns_ctx_err : forall U s m s' outs o k r w dl,
